@@ -274,6 +274,23 @@ theorem signature_needed_qcow2 (s : Insp) (hf : s.fmt = .qcow2) (h : formatMatch
     · simp only [hc, Bool.not_true, Bool.false_eq_true, if_false, pure, Except.pure, Except.ok.injEq] at h
       exact ⟨r, rfl, hc, h⟩
 
+theorem signature_needed_vdi (s : Insp) (hf : s.fmt = .vdi) (h : formatMatch s = .ok true) :
+    ∃ r, s.region "header" = .ok r ∧ r.complete = true ∧
+      unpackLE 4 (slice r.data 0x40 0x44) = .ok 0xbeda107f := by
+  simp only [formatMatch, hf, bind, Except.bind] at h
+  cases hr : s.region "header" with
+  | error e => simp [hr] at h
+  | ok r =>
+    simp only [hr] at h
+    cases hc : r.complete
+    · simp [hc, pure, Except.pure] at h
+    · simp only [hc, Bool.not_true, Bool.false_eq_true, if_false] at h
+      cases hu : unpackLE 4 (slice r.data 0x40 0x44) with
+      | error e => simp [hu] at h
+      | ok v =>
+        simp only [hu, pure, Except.pure, Except.ok.injEq, beq_iff_eq] at h
+        exact ⟨r, rfl, hc, by rw [hu, h]⟩
+
 /-- VMDK in sparse mode (a header region exists): a match needs the `KDMV` magic -/
 theorem signature_needed_vmdk (s : Insp) (hf : s.fmt = .vmdk) (r : Region)
     (hr : lookupR "header" s.regions = some r) (h : formatMatch s = .ok true) :
